@@ -110,6 +110,67 @@ pub struct SavedVmState {
     pub new_target: JsValue,
     /// Trampoline call stack (for nested function calls)
     pub trampoline_stack: Vec<SavedTrampolineFrame>,
+    /// `this` of the suspended (innermost) frame
+    pub this_value: Option<JsValue>,
+    /// Block scopes the suspended frame had entered: PopScope needs them after the resume
+    pub saved_env_stack: Vec<Gc<JsObject>>,
+    /// Completion waiting for a finally block of the suspended frame
+    pub pending_completion: Option<SavedPendingCompletion>,
+}
+
+impl SavedPendingCompletion {
+    /// Values are kept alive by `guard` (the saved state's guard)
+    fn save(pending: &PendingCompletion, guard: &Guard<JsObject>) -> Self {
+        match pending {
+            PendingCompletion::Return(g) => {
+                g.value.guard_by(guard);
+                SavedPendingCompletion::Return(g.value.clone())
+            }
+            PendingCompletion::Throw(g) => {
+                g.value.guard_by(guard);
+                SavedPendingCompletion::Throw(g.value.clone())
+            }
+            PendingCompletion::Break { target, try_depth } => SavedPendingCompletion::Break {
+                target: *target,
+                try_depth: *try_depth,
+            },
+            PendingCompletion::Continue { target, try_depth } => {
+                SavedPendingCompletion::Continue {
+                    target: *target,
+                    try_depth: *try_depth,
+                }
+            }
+        }
+    }
+
+    fn restore(self, guard: &Guard<JsObject>) -> PendingCompletion {
+        match self {
+            SavedPendingCompletion::Return(v) => {
+                v.guard_by(guard);
+                PendingCompletion::Return(Guarded::unguarded(v))
+            }
+            SavedPendingCompletion::Throw(v) => {
+                v.guard_by(guard);
+                PendingCompletion::Throw(Guarded::unguarded(v))
+            }
+            SavedPendingCompletion::Break { target, try_depth } => {
+                PendingCompletion::Break { target, try_depth }
+            }
+            SavedPendingCompletion::Continue { target, try_depth } => {
+                PendingCompletion::Continue { target, try_depth }
+            }
+        }
+    }
+}
+
+/// `PendingCompletion` in a form that can be kept in a saved state (values are kept alive
+/// by the saved state's guard)
+#[derive(Clone)]
+pub enum SavedPendingCompletion {
+    Return(JsValue),
+    Throw(JsValue),
+    Break { target: usize, try_depth: u8 },
+    Continue { target: usize, try_depth: u8 },
 }
 
 /// A call frame in the VM
@@ -190,6 +251,8 @@ pub struct SavedTrampolineFrame {
     pub construct_new_obj: Option<Gc<JsObject>>,
     /// For async function calls: wrap result in a Promise when returning
     pub is_async: bool,
+    /// Completion waiting for a finally block of this (caller) frame
+    pub pending_completion: Option<SavedPendingCompletion>,
 }
 
 /// A saved VM frame for the trampoline call stack
@@ -1878,9 +1941,18 @@ impl BytecodeVM {
                     saved_interp_env: frame.saved_interp_env.cheap_clone(),
                     construct_new_obj: frame.construct_new_obj.clone(),
                     is_async: frame.is_async,
+                    pending_completion: frame
+                        .pending_completion
+                        .as_ref()
+                        .map(|pending| SavedPendingCompletion::save(pending, &guard)),
                 }
             })
             .collect();
+
+        let pending_completion = self
+            .pending_completion
+            .as_ref()
+            .map(|pending| SavedPendingCompletion::save(pending, &guard));
 
         SavedVmState {
             frames: self.call_stack.clone(),
@@ -1892,6 +1964,9 @@ impl BytecodeVM {
             arguments: self.arguments.clone(),
             new_target: self.new_target.clone(),
             trampoline_stack: saved_trampoline_stack,
+            this_value: Some(self.this_value.clone()),
+            saved_env_stack: self.saved_env_stack.clone(),
+            pending_completion,
         }
     }
 
@@ -1903,6 +1978,17 @@ impl BytecodeVM {
         guard: Guard<JsObject>,
         heap: &crate::gc::Heap<JsObject>,
     ) -> Self {
+        // The suspended frame's own `this`, block scopes and pending completion
+        let this_value = state.this_value.clone().unwrap_or(this_value);
+        let saved_env_stack = state.saved_env_stack.clone();
+        for env in &saved_env_stack {
+            guard.guard(env.cheap_clone());
+        }
+        let pending_completion = state
+            .pending_completion
+            .clone()
+            .map(|pending| pending.restore(&guard));
+
         // Guard this_value if it's an object
         if let JsValue::Object(obj) = &this_value {
             guard.guard(obj.cheap_clone());
@@ -1965,7 +2051,9 @@ impl BytecodeVM {
                     arguments: saved.arguments,
                     new_target: saved.new_target,
                     current_constructor: saved.current_constructor,
-                    pending_completion: None, // Lost during save
+                    pending_completion: saved
+                        .pending_completion
+                        .map(|pending| pending.restore(&frame_guard)),
                     return_register: saved.return_register,
                     saved_interp_env: saved.saved_interp_env,
                     register_guard: frame_guard,
@@ -1984,11 +2072,11 @@ impl BytecodeVM {
             try_stack: state.try_stack,
             this_value,
             exception_value: None,
-            saved_env_stack: Vec::new(),
+            saved_env_stack,
             arguments: state.arguments,
             new_target: state.new_target,
             current_constructor: None,
-            pending_completion: None,
+            pending_completion,
             trampoline_stack,
             register_pool: Vec::new(),
             arguments_pool: Vec::new(),
